@@ -165,6 +165,98 @@ func cacheSeq(ctx *engine.Ctx) {
 	ctx.Res.Note("cache-seq: all %d^%d sequences x 4 initial capacities", alpha, depth)
 }
 
+// ---- handshakes that differ in the access key only ----
+
+// idHandshakes: four key ids x two salts. The ids differ only beyond their fourth byte, are a
+// prefix of each other, or are empty; under the documented checksum (XOR fold of id and salt
+// bytes into four lanes) all eight are pairwise different, which foldOK re-checks.
+var idNames = []string{"user-0", "user-1", "user", ""}
+
+func idHandshake(i int) (string, []byte) {
+	salt := make([]byte, 32)
+	for j := range salt {
+		salt[j] = byte(j*5 + 1)
+	}
+	salt[2] = byte(0x40 + i/4)
+	return idNames[i%4], salt
+}
+
+func fold(id string, salt []byte) (f [4]byte) {
+	for i := 0; i < len(id); i++ {
+		f[i&3] ^= id[i]
+	}
+	for i, v := range salt {
+		f[i&3] ^= v
+	}
+	return
+}
+
+type idCase struct {
+	Cap int   `json:"capacity"`
+	Ops []int `json:"ops"` // Add(idHandshake(op))
+}
+
+func runIDSeq(ctx *engine.Ctx, sc idCase) {
+	cache := service.NewReplayCache(sc.Cap)
+	ref := &refModel{cap: sc.Cap}
+	obs := ""
+	for step, op := range sc.Ops {
+		id, salt := idHandshake(op)
+		must, may := ref.verdict(op, op)
+		got := cache.Add(id, salt)
+		obs += fmt.Sprint(got)[:1]
+		if must && got {
+			ctx.Fail("cache-ids", "replay-accepted", fmt.Sprintf("step %d: handshake (key %q, salt %d) is among the most recent N checked but was accepted again; case=%+v", step, id, op/4, sc), sc, nil)
+			return
+		}
+		if !got && !may {
+			ctx.Fail("cache-ids", "fresh-refused", fmt.Sprintf("step %d: handshake (key %q, salt %d) was refused although it was never presented and no remembered handshake shares its checksum; case=%+v", step, id, op/4, sc), sc, nil)
+			return
+		}
+		ref.add(op, op)
+	}
+	ctx.Record("cache-ids", "Q", fmt.Sprint(sc.Cap, obs), true, int64(len(sc.Ops)), int64(len(sc.Ops)))
+}
+
+func cacheIDs(ctx *engine.Ctx) {
+	seen := map[[4]byte]int{}
+	for i := 0; i < 8; i++ {
+		id, salt := idHandshake(i)
+		f := fold(id, salt)
+		if j, dup := seen[f]; dup {
+			ctx.Incomplete("cache-ids", "cache-ids: handshakes %d and %d collide under the documented checksum, unit skipped", j, i)
+			return
+		}
+		seen[f] = i
+	}
+	depth := 4
+	if ctx.Tier == "thorough" {
+		depth = 6
+	}
+	total := int64(1)
+	for i := 0; i < depth; i++ {
+		total *= 8
+	}
+	var idx int64
+	for _, cp := range []int{2, 64} {
+		for code := int64(0); code < total; code++ {
+			idx++
+			if !ctx.Mine(idx) {
+				continue
+			}
+			ops := make([]int, depth)
+			c := code
+			for i := range ops {
+				ops[i] = int(c % 8)
+				c /= 8
+			}
+			sc := idCase{Cap: cp, Ops: ops}
+			hk.Guard(ctx, "cache-ids", sc, func() { runIDSeq(ctx, sc) })
+		}
+	}
+	ctx.Res.Note("cache-ids: all 8^%d sequences over 4 key ids x 2 salts, capacities 2 and 64", depth)
+}
+
 type scaleCase struct {
 	N int `json:"capacity"`
 }
@@ -338,6 +430,7 @@ func init() {
 		for _, sc := range concScenarios() {
 			engine.ExploreS(ctx, sc, engine.SConfig{Bound: -1, Shard: ctx.Shard, NShards: ctx.NShards, Deadline: ctx.Deadline})
 		}
+		cacheIDs(ctx)
 		cacheSeq(ctx)
 	})
 	hk.Replayers["C07"] = func(ctx *engine.Ctx, rp engine.Replay) []*engine.Finding {
@@ -347,6 +440,11 @@ func init() {
 			var sc seqCase
 			json.Unmarshal(rp.Input, &sc)
 			hk.Guard(sub, "cache-seq", sc, func() { runSeq(sub, "cache-seq", sc) })
+			return sub.Res.Findings
+		case "cache-ids":
+			var sc idCase
+			json.Unmarshal(rp.Input, &sc)
+			hk.Guard(sub, "cache-ids", sc, func() { runIDSeq(sub, sc) })
 			return sub.Res.Findings
 		case "svc-resize":
 			return replaySvc(rp)
